@@ -119,7 +119,7 @@ def gen_generic(rng):
 
 
 def plan(seed, tier):
-    n = 40 if tier == "quick" else 800
+    n = 40 if tier == "quick" else 4000
     cases = [{"class": "pin", "index": i, "reps": 100, "cost": 1} for i in range(n)]
     cases += [{"class": "valid", "index": i, "reps": 200, "cost": 1} for i in range(n // 2)]
     cases.append({"class": "probe", "cost": 1})
